@@ -128,7 +128,8 @@ impl Property for C18 {
          it to a freshly spawned thread (joined at once), observe_closure_duration / observe_closure_duration_coarse on the shared or a local histogram (the closure optionally observes / times / reads the same histogram), local flush / \
          clear / drop, create local. Oracle: count model (shared count and every local's pending count after every operation; +1 \
          exactly for record/drop, +0 for discard; a local timer's observation reaches the shared histogram when the timer dies), \
-         returned durations finite and >= 0 (a final stage holds 28 timers of every flavour for 120 ms - four of them for 1.1 s -, staggered over more than a second, and requires the recorded duration to lie within the measured lifetime +- 30 ms), and the shared sample sum grows by exactly the returned duration. Non-trivial: >=3 \
+         returned durations finite and >= 0 (a final stage holds 28 timers of every flavour for 120 ms - four of them for 1.1 s -, staggered over more than a second, and requires the recorded duration to lie within the measured lifetime +- 30 ms), and the shared sample sum grows by exactly the returned duration; a fifth of the histories run on a histogram with 47 bounds (10 ns x 1.5^k) where the duration \
+         returned by stop_and_record must be counted under exactly the bounds not smaller than it. Non-trivial: >=3 \
          timers alive at once, ended in an order different from creation, with >=1 discard and >=1 cross-thread end. \
          Distinct = decoded choices."
     }
@@ -164,13 +165,31 @@ impl Property for C18 {
         }
         // every recorded duration is a finite number >= 0, so it never falls in the bucket le=-1 and always in le=f64::MAX
         // (a fifth of the cases: a histogram without any finite bucket, or with a single one that no duration reaches)
+        // (another fifth: a fine-grained latency histogram, 47 bounds from 10 ns upwards in steps of x1.5 between le=-1 and le=MAX - a
+        // duration that stop_and_record returns must be counted under exactly the bounds that are not smaller than it)
         let cfg = src.below(10);
         let bounds: Vec<f64> = match cfg {
             0 => vec![f64::INFINITY],
             1 => vec![-1.0],
+            8 | 9 => {
+                let mut b = vec![-1.0];
+                let mut x = 1e-8;
+                for _ in 0..45 {
+                    b.push(x);
+                    x *= 1.5;
+                }
+                b.push(f64::MAX);
+                rep.class("fine-grained-buckets(47 bounds)");
+                b
+            }
             _ => vec![-1.0, f64::MAX],
         };
-        let hist = Histogram::with_opts(HistogramOpts::new("t", "h").buckets(bounds)).unwrap();
+        let fine = cfg >= 8;
+        let cumulative = |hist: &Histogram| -> Vec<u64> {
+            use prometheus::core::Metric;
+            hist.metric().get_histogram().get_bucket().iter().map(|b| b.cumulative_count()).collect()
+        };
+        let hist = Histogram::with_opts(HistogramOpts::new("t", "h").buckets(bounds.clone())).unwrap();
         let mut locals: Vec<Option<LocalHistogram>> = vec![];
         let mut pending: Vec<u64> = vec![];
         let mut shared_count: u64 = 0;
@@ -186,6 +205,7 @@ impl Property for C18 {
         for step in 0..nops {
             let op = src.below(16);
             let sum_before = hist.get_sample_sum();
+            let cum_before = if fine { cumulative(&hist) } else { vec![] };
             let mut returned: Option<f64> = None;
             let mut sum_exact = false; // sum must grow by exactly `returned`
             let mut may_grow = false; // sum may grow by an unknown non-negative amount
@@ -391,14 +411,30 @@ impl Property for C18 {
                 let buckets_ok = match cfg {
                     0 => b.is_empty(),
                     1 => b.len() == 1 && b[0] == 0,
+                    8 | 9 => b.len() == bounds.len() && b[0] == 0 && b[b.len() - 1] == shared_count && b.windows(2).all(|w| w[0] <= w[1]),
                     _ => b.len() == 2 && b[0] == 0 && b[1] == shared_count,
                 };
+                if fine && sum_exact && buckets_ok {
+                    // the one duration whose value is known: counted under every bound >= it and under no other
+                    let v = returned.unwrap();
+                    let want: Vec<u64> = bounds.iter().zip(&cum_before).map(|(ub, c)| c + (v <= *ub) as u64).collect();
+                    if b != want {
+                        let at = b.iter().zip(&want).position(|(x, y)| x != y).unwrap();
+                        return fail(
+                            "duration-counted-in-the-wrong-bucket",
+                            format!(
+                                "step {}: stop_and_record returned {} s, but the cumulative count of le={} went from {} to {} (expected {}) ;; history: {}",
+                                step, v, bounds[at], cum_before[at], b[at], want[at], log.join(" ")
+                            ),
+                        );
+                    }
+                }
                 if h.get_sample_count() != shared_count || !buckets_ok {
                     return fail(
                         "timer-bucket-count-mismatch",
                         format!(
                             "step {}: {} observations recorded but the collected histogram shows count={} and cumulative buckets le=-1: {}, le=MAX: {} (every duration is a finite number >= 0, so they must be 0 and {}) ;; history: {}",
-                            step, shared_count, h.get_sample_count(), b.first().copied().unwrap_or(0), b.get(1).copied().unwrap_or(0), shared_count, log.join(" ")
+                            step, shared_count, h.get_sample_count(), b.first().copied().unwrap_or(0), if b.len() >= 2 { b[b.len() - 1] } else { 0 }, shared_count, log.join(" ")
                         ),
                     );
                 }
